@@ -2,6 +2,7 @@ package rules
 
 import (
 	"fmt"
+	"strconv"
 	"strings"
 
 	"golang.org/x/tools/go/ssa"
@@ -34,13 +35,13 @@ var c06Specs = []shapeSpec{
 	// msg_key_large = SHA256(substr(auth_key, 88+x, 32) + plaintext + padding)
 	{"msgKeyLarge", -1, []string{"P1[1x+88:1x+120]", "P2"}, nil},
 	// msg_key = substr(msg_key_large, 8, 16)
-	{"messageKey", -1, nil, []string{"v[0:16] ← P0[8:24]"}},
+	{"messageKey", -1, nil, []string{"v@0 ← P0[8:24]"}},
 	// sha256_a = SHA256(msg_key + substr(auth_key, x, 36))
 	{"sha256a", 3, []string{"P2", "P1[1x:1x+36]"}, nil},
 	// sha256_b = SHA256(substr(auth_key, 40+x, 36) + msg_key)
 	{"sha256b", 3, []string{"P1[1x+40:1x+76]", "P2"}, nil},
 	// aes_key = substr(sha256_a, 0, 8) + substr(sha256_b, 8, 16) + substr(sha256_a, 24, 8)
-	{"aesKey", -1, nil, []string{"P2[0:8] ← P0[0:8]", "P2[8:] ← P1[8:24]", "P2[24:] ← P0[24:32]"}},
+	{"aesKey", -1, nil, []string{"P2@0 ← P0[0:8]", "P2@8 ← P1[8:24]", "P2@24 ← P0[24:32]"}},
 	// v1
 	{"sha1a", 3, []string{"P2", "P1[1x:1x+32]"}, nil},
 	{"sha1b", 3, []string{"P1[1x+32:1x+48]", "P2", "P1[1x+48:1x+64]"}, nil},
@@ -190,12 +191,30 @@ func c06Pure(c *engine.Ctx) {
 }
 
 func normCopy(cp engine.Copy) string {
-	d := cp.Dst.String()
+	base := cp.Dst.Base
 	// the named result array of messageKey / closures: call it v
-	if strings.HasPrefix(d, "alloc:") || strings.HasPrefix(d, "new ") {
-		d = "v" + d[strings.IndexAny(d+"[", "["):]
+	if strings.HasPrefix(base, "alloc:") || strings.HasPrefix(base, "new ") {
+		base = "v"
 	}
-	return d + " ← " + cp.Src.String()
+	return base + dstAt(cp) + " ← " + cp.Src.String()
+}
+
+// dstAt renders the destination of a copy by where it starts: copy() moves
+// min(len(dst), len(src)) bytes, so dst[8:], dst[8:24] and dst[8:8+16] receive
+// the same bytes from a 16-byte source. A destination window that is provably
+// shorter than the source is marked, because then fewer bytes arrive.
+func dstAt(cp engine.Copy) string {
+	lo := cp.Dst.Lo
+	s := "@" + strconv.FormatInt(lo.B, 10)
+	if lo.A != 0 {
+		s = "@" + strconv.FormatInt(lo.A, 10) + "x" + fmt.Sprintf("%+d", lo.B)
+	}
+	if !cp.Dst.Full && !cp.Src.Full && cp.Dst.Hi.A == cp.Dst.Lo.A && cp.Src.Hi.A == cp.Src.Lo.A {
+		if (cp.Dst.Hi.B - cp.Dst.Lo.B) < (cp.Src.Hi.B - cp.Src.Lo.B) {
+			s += "(window shorter than source)"
+		}
+	}
+	return s
 }
 
 func shapeCtx(fn *ssa.Function, xParam int) *engine.ShapeCtx {
@@ -245,7 +264,7 @@ func c06Wiring(c *engine.Ctx) {
 		for _, cp := range cps {
 			got = append(got, normCopy(cp))
 		}
-		want := []string{"P2[0:8] ← P1[0:8]", "P2[8:] ← P0[8:24]", "P2[24:] ← P1[24:32]"}
+		want := []string{"P2@0 ← P1[0:8]", "P2@8 ← P0[8:24]", "P2@24 ← P1[24:32]"}
 		if len(cps) > 0 {
 			ok = normSpans(got) == normSpans(want)
 		}
@@ -348,8 +367,8 @@ func c06V1(c *engine.Ctx) {
 		c.Check(ok, "C06.R3", "MessageKeyV1/shape", fn.Pos(), "msg_key v1 = substr(SHA1(plaintext), 4, 16); got %s", got)
 	}
 	// KeysV1 and OldKeys splices
-	wantKey := []string{"[0:] ← a[0:8]", "[8:] ← b[8:20]", "[20:] ← c[4:16]"}
-	wantIV := []string{"[0:] ← a[8:20]", "[12:] ← b[0:8]", "[20:] ← c[16:20]", "[24:] ← d[0:8]"}
+	wantKey := []string{"@0 ← a[0:8]", "@8 ← b[8:20]", "@20 ← c[4:16]"}
+	wantIV := []string{"@0 ← a[8:20]", "@12 ← b[0:8]", "@20 ← c[16:20]", "@24 ← d[0:8]"}
 	if fn := c.MustFunc("C06.R3", "crypto", "KeysV1"); fn != nil {
 		names := map[*ssa.Call]string{}
 		okX := true
@@ -397,13 +416,7 @@ func c06V1(c *engine.Ctx) {
 				for i, l := range []string{"a", "b", "c", "d"} {
 					src = strings.Replace(src, fmt.Sprintf("P%d", i), l, 1)
 				}
-				d := cp.Dst.String()
-				if i := strings.Index(d, "["); i >= 0 {
-					d = d[i:]
-				} else {
-					d = "[0:]"
-				}
-				got = append(got, d+" ← "+src)
+				got = append(got, dstAt(cp)+" ← "+src)
 			}
 			want := wantKey
 			if len(an.Params) == 4 {
@@ -434,13 +447,7 @@ func v1Splice(cp engine.Copy, names map[*ssa.Call]string) string {
 		}
 	}
 	src.Base = base
-	d := cp.Dst.String()
-	if i := strings.Index(d, "["); i >= 0 {
-		d = d[i:]
-	} else {
-		d = "[0:]"
-	}
-	return d + " ← " + src.String()
+	return dstAt(cp) + " ← " + src.String()
 }
 
 func c06Bind(c *engine.Ctx) {
